@@ -219,6 +219,18 @@ class GemseoModels:
             return SV(nd_len(v.term), TInt)
         return NotImplemented
 
+    def to_iter(self, ex, v, lineno):
+        """collections.abc.Sequence mixin: iteration through __len__/__getitem__."""
+        from .engine import IterV
+
+        if isinstance(v, Ref) and isinstance(ex.st.heap[v.id], PyObj):
+            o = ex.st.heap[v.id]
+            if any(q.rsplit(".", 1)[-1] in ("Sequence", "MutableSequence") for q in S.mro(o.cls)) and S.find_method(o.cls, "__iter__") is None:
+                n = ex.num(ex.models.length(ex, v, lineno))[0]
+                gi = S.find_method(o.cls, "__getitem__")
+                return IterV(n, lambda i: ex.call_repo(gi, [v, SV(i, TInt)], {}, lineno))
+        return NotImplemented
+
     def call_opaque(self, ex, fv, args, kwargs, lineno):
         st = ex.st
         if isinstance(fv, SV) and fv.ty == TCallable and len(args) == 1 and not kwargs:
